@@ -140,7 +140,31 @@ func stat(k string, d int64) {
 
 // ---------------------------------------------------------------- plugin counting Load / Unload / OnStop
 
-type plug struct{ loads, unloads, onstops int32 }
+type plug struct {
+	loads, unloads, onstops int32
+	// late accept: when armed, the OnAccept hook of the NEXT accepted connection parks until Stop has returned (a
+	// connection that is accepted while Stop runs: it sits between accept and the registration in srv.conns)
+	lateMu   sync.Mutex
+	late     chan struct{}
+	lateHeld int32
+}
+
+func (p *plug) arm() {
+	p.lateMu.Lock()
+	p.late = make(chan struct{})
+	p.lateMu.Unlock()
+}
+
+func (p *plug) release() (was bool) {
+	p.lateMu.Lock()
+	if p.late != nil {
+		close(p.late)
+		p.late = nil
+		was = true
+	}
+	p.lateMu.Unlock()
+	return
+}
 
 func (p *plug) Load(server.Server) error { atomic.AddInt32(&p.loads, 1); return nil }
 func (p *plug) Unload() error            { atomic.AddInt32(&p.unloads, 1); return nil }
@@ -152,6 +176,22 @@ func (p *plug) HookWrapper() server.HookWrapper {
 			if next != nil {
 				next(ctx)
 			}
+		}
+	}, OnAcceptWrapper: func(next server.OnAccept) server.OnAccept {
+		return func(ctx context.Context, conn net.Conn) bool {
+			p.lateMu.Lock()
+			ch := p.late
+			p.lateMu.Unlock()
+			if ch != nil && atomic.CompareAndSwapInt32(&p.lateHeld, 0, 1) {
+				select {
+				case <-ch:
+				case <-time.After(15 * time.Second):
+				}
+			}
+			if next != nil {
+				return next(ctx, conn)
+			}
+			return true
 		}
 	}}
 }
@@ -350,7 +390,12 @@ func startBroker(gate func(string, map[string]interface{})) *bench {
 	for i := 0; i < 100; i++ {
 		c, err := net.DialTimeout("tcp", b.Addr, time.Second)
 		if err == nil {
+			probe := c.LocalAddr().String()
 			c.Close()
+			// ... and until the broker is done with the probe connection (scripts count accepted connections)
+			for j := 0; j < 200 && !hookSeen(rec, "closed", probe); j++ {
+				time.Sleep(5 * time.Millisecond)
+			}
 			break
 		}
 		time.Sleep(10 * time.Millisecond)
@@ -747,8 +792,14 @@ func runScript(sc *Scenario) {
 			p.weClosed = true
 			p.mu.Unlock()
 			p.c.Close()
+		case "armlate":
+			bn.p.arm()
 		case "stop":
 			bn.stop(stopTO)
+			// a connection parked in its OnAccept hook (armlate) continues now: Stop has returned
+			if bn.p.release() {
+				time.Sleep(400 * time.Millisecond) // let the late connection run into whatever it runs into
+			}
 			bn.afterStop(sc, "scripted Stop")
 		case "api":
 			switch st.Kind {
